@@ -18,7 +18,7 @@ use std::sync::{Arc, Mutex};
 use std::time::{Duration, Instant};
 
 pub const LEVEL: &str = "exploration";
-pub const RULE: &str = "case = scenario on a real connected client (Connector::connect over a socket pair and TLS) whose receive thread is the binary's launch_rdp_thread: 1..12 fast-path bitmap PDUs tagged with serial numbers; a packing of PDUs into TLS records (one per record, several per record, one PDU split over 2-3 records) and of records into socket writes (one write per record, all coalesced, 1..n-byte pieces) with seeded pauses (0 / 100 us / 5 ms); an end mode (disconnect-provider ultimatum, TLS close_notify then close, abrupt close, undecodable PDU then close, connection reset (RST, on the loopback-TCP transport), none) placed before any PDU, between PDUs or inside a PDU; 0..2 concurrent writer threads doing lock + try_write. Oracle: with the server silent and open every PDU already sent arrives on the bitmap channel in serial order within 30 s (a miss is confirmed by a 'poke' PDU: if the missing events then arrive the thread was waiting for further server traffic); after the end event the thread's JoinHandle is finished within 30 s and the shared client is released (a live thread is classified as spinning or blocked by process CPU time); everything sent before the end was forwarded in order. A scenario may contain a reactivation (deactivate-all + demand-active in one TLS record, one record each, or behind a bitmap PDU): the client's finalization must arrive with the server silent, and bitmaps flow again afterwards; one matrix scenario pushes 66 000 bitmaps through the session first. Scenarios may start with 1-2 bitmap PDUs in the TLS record of the font-map (decrypted before the receive thread exists: they must be delivered with the server silent) and may use PDUs larger than one TLS record (64x64 raw rectangles), also cut in half by the end event. A scenario may send 1-5 bitmap PDUs IMMEDIATELY before the end event (in their own TLS records, or in the record that carries the ultimatum / undecodable PDU), so that the end reaches the socket while they are unread: they were received before the end and must all be forwarded, in order, before the thread stops (not with a connection reset, which may discard queued data). The matrix section covers every end mode at every protocol point and every packing (one / several / split PDUs per record) on a plain-TLS and on a CredSSP (PROTOCOL_HYBRID) session, plus scenarios that start with 6 s (thorough: 2, 6, 11, 31, 61 s) of complete server silence; one generated scenario in three runs on a CredSSP session. Scenarios run one at a time. Non-trivial = packing other than one-PDU-per-record-per-write, or an end mode other than none; distinct by hash of the scenario.";
+pub const RULE: &str = "case = scenario on a real connected client (Connector::connect over a socket pair and TLS) whose receive thread is the binary's launch_rdp_thread: 1..12 fast-path bitmap PDUs tagged with serial numbers; a packing of PDUs into TLS records (one per record, several per record, one PDU split over 2-3 records) and of records into socket writes (one write per record, all coalesced, 1..n-byte pieces) with seeded pauses (0 / 100 us / 5 ms / 40 ms / 250 ms; the long ones only between few pieces); an end mode (disconnect-provider ultimatum, TLS close_notify then close, abrupt close, undecodable PDU then close, connection reset (RST, on the loopback-TCP transport), none) placed before any PDU, between PDUs or inside a PDU; 0..2 concurrent writer threads doing lock + try_write. Oracle: with the server silent and open every PDU already sent arrives on the bitmap channel in serial order within 30 s (a miss is confirmed by a 'poke' PDU: if the missing events then arrive the thread was waiting for further server traffic); after the end event the thread's JoinHandle is finished within 30 s and the shared client is released (a live thread is classified as spinning or blocked by process CPU time); everything sent before the end was forwarded in order. A scenario may contain a reactivation (deactivate-all + demand-active in one TLS record, one record each, or behind a bitmap PDU): the client's finalization must arrive with the server silent, and bitmaps flow again afterwards; one matrix scenario pushes 66 000 bitmaps through the session first. Scenarios may start with 1-2 bitmap PDUs in the TLS record of the font-map (decrypted before the receive thread exists: they must be delivered with the server silent) and may use PDUs larger than one TLS record (64x64 raw rectangles), also cut in half by the end event. A scenario may send 1-5 bitmap PDUs IMMEDIATELY before the end event (in their own TLS records, or in the record that carries the ultimatum / undecodable PDU), so that the end reaches the socket while they are unread: they were received before the end and must all be forwarded, in order, before the thread stops (not with a connection reset, which may discard queued data). The matrix section covers every end mode at every protocol point and every packing (one / several / split PDUs per record) on a plain-TLS and on a CredSSP (PROTOCOL_HYBRID) session, plus scenarios that start with 6 s (thorough: 2, 6, 11, 31, 61 s) of complete server silence; one generated scenario in three runs on a CredSSP session. Scenarios run one at a time. Non-trivial = packing other than one-PDU-per-record-per-write, or an end mode other than none; distinct by hash of the scenario.";
 
 // generous: a loaded machine must not turn into a violation; waiting costs nothing when things work (the collectors return
 // as soon as everything has arrived), only failing scenarios take this long
@@ -212,9 +212,12 @@ impl Write for Pipe {
 }
 
 fn pause(idx: u8) {
-    match idx % 3 {
+    match idx % 5 {
         1 => std::thread::sleep(Duration::from_micros(100)),
         2 => std::thread::sleep(Duration::from_millis(5)),
+        // longer than a display frame and longer than common poll intervals: a receive timeout in the middle of a PDU
+        3 => std::thread::sleep(Duration::from_millis(40)),
+        4 => std::thread::sleep(Duration::from_millis(250)),
         _ => {}
     }
 }
@@ -539,7 +542,8 @@ pub fn run(c: &Case) -> Outcome {
         SocketPacking::Pieces(n) => total_len / n.max(1) as usize,
         _ => records.len(),
     };
-    let pause_idx = if pieces > 400 { 0 } else { c.pause };
+    // (and the long pauses only when there are few pieces)
+    let pause_idx = if pieces > 400 { 0 } else if pieces > 24 && c.pause % 5 >= 3 { 2 } else { c.pause };
     if let Err(e) = send(&mut s, &records, c.socket, pause_idx) {
         io_err = Some(e.to_string());
     }
@@ -833,7 +837,7 @@ pub fn decode(s: &mut Src) -> Case {
     };
     let end = s.pick(&[EndMode::None, EndMode::DisconnectUltimatum, EndMode::CloseNotify, EndMode::AbruptClose, EndMode::UndecodableThenClose, EndMode::DisconnectUltimatum, EndMode::Reset]);
     let pdus = 1 + s.below(12) as u8;
-    Case { pdus, records, socket, pause: s.below(3) as u8, end, end_after: s.below(pdus as usize + 1) as u8, end_inside: s.chance(64), writers: s.below(3) as u8, end_delay: s.below(3) as u8, nla, silence_s, tcp, early, big, bulk: 0, reactivate, tail, tail_packed }
+    Case { pdus, records, socket, pause: s.below(5) as u8, end, end_after: s.below(pdus as usize + 1) as u8, end_inside: s.chance(64), writers: s.below(3) as u8, end_delay: s.below(3) as u8, nla, silence_s, tcp, early, big, bulk: 0, reactivate, tail, tail_packed }
 }
 
 fn matrix(thorough: bool) -> Vec<Case> {
@@ -897,6 +901,16 @@ fn matrix(thorough: bool) -> Vec<Case> {
         for tail_packed in [false, true] {
             for (tcp, nla, inside) in [(false, false, false), (true, false, false), (false, true, false), (false, false, true)] {
                 v.push(Case { pdus: 2, records: RecordPacking::OnePerRecord, socket: SocketPacking::PerRecord, pause: 0, end, end_after: 2, end_inside: inside, writers: 0, end_delay: 0, nla, silence_s: 0, tcp, early: 0, big: false, bulk: 0, reactivate: 0, tail: 3, tail_packed });
+            }
+        }
+    }
+    // a PDU split across TLS records or socket writes with a pause of 40 ms / 250 ms between the parts (a read that gives up after
+    // a short timeout in the middle of a PDU must not lose what it has read)
+    for pause in [3u8, 4] {
+        for (records, socket) in [(RecordPacking::SplitAcrossRecords(2), SocketPacking::PerRecord), (RecordPacking::SplitAcrossRecords(3), SocketPacking::PerRecord), (RecordPacking::OnePerRecord, SocketPacking::Pieces(29)), (RecordPacking::OnePerRecord, SocketPacking::Pieces(3))] {
+            for tcp in [false, true] {
+                let pdus = if matches!(socket, SocketPacking::Pieces(3)) { 1 } else { 3 };
+                v.push(Case { pdus, records, socket, pause, end: EndMode::DisconnectUltimatum, end_after: pdus, end_inside: false, writers: 0, end_delay: 0, nla: false, silence_s: 0, tcp, early: 0, big: false, bulk: 0, reactivate: 0, tail: 0, tail_packed: false });
             }
         }
     }
